@@ -659,3 +659,5 @@ func (f verifPWFunc) PasswordAuthenticate(user string, password []byte) (bool, e
 	return f(user, password)
 }
 func (f verifPWFunc) UpdateStorage(s simplestorage.SimpleStore) error { return nil }
+
+func timeNow() time.Time { return time.Now() }
